@@ -251,6 +251,8 @@ class PathEnd:
         self.kind, self.guard, self.stack, self.point_key, self.info = kind, guard, stack, point_key, info
 
 
+OWN_BASE = 9000
+
 VISIBLE_ATOMIC = {"load", "store", "compare_exchange", "compare_exchange_weak", "fetch_add", "fetch_sub"}
 
 
@@ -740,6 +742,25 @@ class Executor:
             return ("visible", {"kind": meth, "width": w, "args": args, "dest": dest, "target": target})
         if meth == "write_bytes" and ("ptr" in base or "intrinsics" in base):
             return ("visible", {"kind": "memset", "args": args, "dest": dest, "target": target})
+        if base in ("client::own", "client::release"):
+            # bookkeeping of the synthetic client: which ranges this thread currently holds. Thread-local,
+            # so not a scheduling point: recorded in pseudo-locals OWN_BASE+slot of the root frame.
+            root = stk[0]
+            if base == "client::own":
+                meta, idx = args
+                j = z3.simplify(idx).as_long()
+                mo, ms, po, ps = meta.f[1], meta.f[2], meta.f[3], meta.f[4]
+                e1, e2 = z3.ZeroExt(1, mo) + z3.ZeroExt(1, ms), z3.ZeroExt(1, po) + z3.ZeroExt(1, ps)
+                ulo = z3.If(z3.ULE(mo, po), mo, po)
+                uhi33 = z3.If(z3.UGE(e1, e2), e1, e2)
+                # an end beyond 2^32 saturates (and is then reported as out of the data area)
+                uhi = z3.If(z3.Extract(32, 32, uhi33) == 1, bv(0xFFFFFFFF, 32), z3.Extract(31, 0, uhi33))
+                root.locals[OWN_BASE + j] = Tup([z3.BoolVal(True), ulo, uhi, po, po + ps])
+            else:
+                j = z3.simplify(args[0]).as_long()
+                old = root.locals[OWN_BASE + j]
+                root.locals[OWN_BASE + j] = Tup([z3.BoolVal(False)] + list(old.f[1:]))
+            return ret(UNIT)
         if base.startswith("client::"):
             return ("visible", {"kind": base, "args": args, "dest": dest, "target": target})
         if meth == "unmount" and "Memory" in base:
@@ -788,6 +809,20 @@ class Executor:
         if meth == "checked_sub" and "num" in base:
             a, b = args
             return ("fork", [(z3.UGE(a, b), Enum("Option", 1, {1: [a - b]})), (z3.ULT(a, b), Enum("Option", 0, {0: []}))])
+        if meth in ("checked_add", "saturating_add", "wrapping_add", "wrapping_sub") and "num" in base:
+            mi = re.search(r"<impl ([a-z0-9]+)>", func)
+            if not mi or mi.group(1) in SIGNED:
+                raise Unsupported("signed " + meth)
+            a, b = args
+            r = a + b
+            ov = z3.ULT(r, a)
+            if meth == "wrapping_add":
+                return ret(r)
+            if meth == "wrapping_sub":
+                return ret(a - b)
+            if meth == "saturating_add":
+                return ret(z3.If(ov, bv((1 << a.size()) - 1, a.size()), r))
+            return ("fork", [(z3.Not(ov), Enum("Option", 1, {1: [r]})), (ov, Enum("Option", 0, {0: []}))])
         if base == "dbutils::abort" or meth in ("panic_fmt", "panic", "expect_failed", "unwrap_failed", "panic_const_add_overflow"):
             return ("panic", func)
         if meth == "call" and "as Fn<" in func:
